@@ -59,7 +59,10 @@ class C03(CtxCheck):
 
         from . import compadds
 
-        return super().units(tier, seed) + adder_units(tier) + two_type_units(tier) + reent.units(tier) + compadds.units(tier)
+        from .c04race import fail_first_units
+
+        return (super().units(tier, seed) + adder_units(tier) + two_type_units(tier) + reent.units(tier) + compadds.units(tier)
+                + [dict(u, c03_fail_first=True) for u in fail_first_units(tier)])
 
     REENT_KEYS = {"reentrant", "stable", "visible"}
     COMPADDS_KEYS = {"unchanged", "conflict", "teardown", "stable"}
@@ -76,10 +79,13 @@ class C03(CtxCheck):
         if "race" in unit:
             from .c04race import RACE
 
+            ff = unit.pop("c03_fail_first", False)
             s = RACE.work(unit, tier)
-            # only the hand-out stability clause belongs to C03
-            s["violations"] = [v for v in s["violations"] if "stable" in v["keys"]]
-            s["keyhist"] = {k: n for k, n in s.get("keyhist", {}).items() if k == "stable"}
+            # only the hand-out stability clause belongs to C03 (in the fail-first family also: a lookup of a pair that resolves must
+            # not fail with an exception the factory did not raise)
+            keep = {"stable", "factory"} if ff else {"stable"}
+            s["violations"] = [v for v in s["violations"] if keep & set(v["keys"])]
+            s["keyhist"] = {k: n for k, n in s.get("keyhist", {}).items() if k in keep}
             return s
         return super().work(unit, tier)
 
